@@ -580,6 +580,613 @@ def run_dump(ctx, runner, cli, thorough):
     return cools, uris
 
 
+# ============================================================ load / cload helpers
+def write_bins(cool, path):
+    with open(path, "w") as f:
+        for c, s_, e in cool.bins:
+            f.write(f"{cool.names[c]}\t{s_}\t{e}\n")
+
+
+def fixed_binsize(cool):
+    """b when every chromosome is tiled by [k*b, min((k+1)*b, L)) (independent reading), else None"""
+    cands = {blk[0][2] - blk[0][1] for blk in cool.blocks if len(blk) > 1}
+    if len(cands) != 1:
+        return None
+    b = cands.pop()
+    for blk in cool.blocks:
+        L = blk[-1][2]
+        for k, (_, s_, e) in enumerate(blk):
+            if s_ != k * b or e != min((k + 1) * b, L):
+                return None
+    return b
+
+
+def bins_kind(cool, rng):
+    return "sizes" if (fixed_binsize(cool) is not None and rng.random() < 0.5) else "bed"
+
+
+def bins_arg(cool, ddir, tag, kind):
+    b = fixed_binsize(cool)
+    if b is not None and kind == "sizes":
+        p = ddir / f"{tag}.chromsizes"
+        p.write_text("".join(f"{n}\t{blk[-1][2]}\n" for n, blk in zip(cool.names, cool.blocks)))
+        return f"{p}:{b}"
+    p = ddir / f"{tag}.bins.bed"
+    write_bins(cool, p)
+    return str(p)
+
+
+def read_pixels(uri, cols=("count",)):
+    """(storage is symmetric?, [(bin1, bin2, v...)]) of a cooler file, or None when it cannot be read"""
+    import cooler
+    try:
+        clr = cooler.Cooler(uri)
+        df = clr.pixels()[:]
+        out = [tuple(int(x) for x in rec) for rec in zip(df["bin1_id"], df["bin2_id"], *[df[c] for c in cols])]
+        return clr.storage_mode == "symmetric-upper", out
+    except Exception as e:
+        return None
+
+
+def coq_text(text):
+    return C.lst([C.lst([C.s(t) for t in rec]) for rec in text])
+
+
+def coq_bins(cool):
+    return C.lst([C.tup(C.z(c), C.z(s_), C.z(e)) for c, s_, e in cool.bins])
+
+
+def coq_names(cool):
+    return C.lst([C.s(n) for n in cool.names])
+
+
+def fp_list(args, agg):
+    return C.lst([f"parse_field_param {C.s(a)} true {C.b(agg)}" for a in args])
+
+
+def mpx(val):
+    """parsed `option (list pixel)` -> list of (a, b, v) or None"""
+    if val is None:
+        return None
+    return [tuple(p) for p in val[1]]
+
+
+TRIL = {"reflect": "Reflect", "drop": "Drop", None: "Keep"}
+
+
+# ============================================================ B. load
+def py_load(recs, n_bins, one_based, tril, chunk):
+    """independent reading of `load`: records (b1, b2, v) -> sorted pixel list, or None when the input is refused
+    (a pixel repeated inside one chunk)"""
+    out = Counter()
+    seen_any = False
+    for k in range(0, len(recs), chunk):
+        keys = set()
+        for a, b, v in recs[k:k + chunk]:
+            if one_based:
+                a, b = a - 1, b - 1
+            if a > b:
+                if tril == "reflect":
+                    a, b = b, a
+                elif tril == "drop":
+                    continue
+            if (a, b) in keys:
+                return None
+            keys.add((a, b))
+            out[(a, b)] += v
+            seen_any = True
+    return sorted((a, b, v) for (a, b), v in out.items())
+
+
+def impl_load(runner, cli, cool, case, ldir, k):
+    """run `cooler load` on the case's text; (exit code, pixel rows or None, storage symmetric? or None)"""
+    inp = ldir / f"in{k}.txt"
+    inp.write_text("".join("\t".join(rec) + "\n" for rec in case["text"]))
+    out = ldir / f"out{k}.cool"
+    args = ["load", "-f", case["fmt"]]
+    if case["one_based"]:
+        args.append("--one-based")
+    if not case["symm"]:
+        args.append("--no-symmetric-upper")
+    if case["duplex"]:
+        args += ["--input-copy-status", "duplex"]
+    if case["chunk"] is not None:
+        args += ["--chunksize", str(case["chunk"])]
+    for a in case["fields"]:
+        args += ["--field", a]
+    args += [bins_arg(cool, ldir, f"b{k}", case["bins"]), str(inp), str(out)]
+    code, _ = invoke(runner, cli, args, limit=30)
+    got = read_pixels(str(out), cols=tuple(case["vn"])) if code == 0 else None
+    for pth in (inp, out):
+        if pth.exists():
+            pth.unlink()
+    return code, (None if got is None else got[1]), (None if got is None else got[0])
+
+
+def oracle_load(cool, case, code, ires, storage):
+    """None when the property holds on this case, else a detail dict"""
+    vn = case["vn"]
+    if case["kind"] == "load-dump":
+        exp = [tuple(p) for p in cool.px]
+        if ires != exp or storage != cool.symm:
+            return {"why": "load(dump(c)) != c", "expected": exp[:15], "got": None if ires is None else ires[:15], "exit": str(code)}
+        return None
+    # independent reading of the file: value columns by their declared numbers
+    nums = {"count": 2 if case["fmt"] == "coo" else 6}
+    for a in case["fields"]:
+        nm, rest = a.split("=", 1)
+        nums[nm] = int(rest.split(":")[0]) - 1
+    index = {(cool.names[c], s_): i for i, (c, s_, e) in enumerate(cool.bins)}
+    recs = []
+    for rec in case["text"]:
+        if case["fmt"] == "coo":
+            a, b = int(rec[0]), int(rec[1])
+            if case["one_based"]:
+                a, b = a - 1, b - 1
+        else:
+            d = 1 if case["one_based"] else 0
+            a, b = index[(rec[0], int(rec[1]) - d)], index[(rec[3], int(rec[4]) - d)]
+        recs.append((a, b, [int(rec[nums[v]]) for v in vn]))
+    tril = None if not case["symm"] else ("drop" if case["duplex"] else "reflect")
+    chunk = case["chunk"] if case["chunk"] is not None else len(case["text"]) + 1
+    cols_exp = []
+    for vi in range(len(vn)):
+        r = py_load([(a, b, vals[vi]) for a, b, vals in recs], len(cool.bins), False, tril, chunk)
+        if r is None:
+            return {"why": "a pixel repeated inside one chunk was accepted"} if code == 0 else None
+        cols_exp.append(r)
+    exp = [tuple([a, b] + [cx[i][2] for cx in cols_exp]) for i, (a, b, _) in enumerate(cols_exp[0])]
+    if ires != exp:
+        return {"why": "loaded pixel table differs from the independent reading of the file", "expected": exp[:15],
+                "got": None if ires is None else ires[:15], "exit": str(code)}
+    return None
+
+
+def run_load(ctx, runner, cli, cools, uris, thorough):
+    rng = ctx.rng
+    ldir = ctx.tmp / "load"
+    ldir.mkdir(exist_ok=True)
+    jobs = []       # dicts
+    # ---- 1. dump | load round trips
+    for ci, cool in enumerate(cools):
+        if not cool.px:
+            continue
+        variants = []
+        for fmt in ("coo", "bg2"):
+            for ob in (False, True):
+                variants.append((fmt, ob, False))
+        if cool.symm:
+            variants.append(("coo", False, True))      # fill-lower dump, --input-copy-status duplex
+            variants.append(("bg2", True, True))
+        if not thorough and ci >= 3:
+            variants = rng.sample(variants, 2)
+        for fmt, ob, duplex in variants:
+            o = default_opts()
+            o["fill"] = duplex
+            if fmt == "bg2":
+                o["join"], o["starts1"] = True, ob
+            else:
+                o["ids1"] = ob
+            code, text = invoke(runner, cli, cli_args(o, uris[ci]))
+            chunk = rng.choice([None, 1, 2, 3, len(cool.px)])
+            jobs.append({"kind": "load-dump", "ci": ci, "fmt": fmt, "one_based": ob, "duplex": duplex, "chunk": chunk,
+                         "text": read_tsv(text) if code == 0 else None, "fields": [], "symm": cool.symm,
+                         "dump_opt": o})
+    # ---- 2. hand-written files with remapped value columns
+    def handwritten(ci, fmt, fields_spec, symm, ob, chunk, recs, ncols, extra_names):
+        """fields_spec: list of (name, colnum0, dtype or None) in declaration order"""
+        cool = cools[ci]
+        text = []
+        for a, b, vals in recs:
+            row = ["junk%d" % rng.randint(0, 9) for _ in range(ncols)]
+            if fmt == "coo":
+                row[0], row[1] = str(a), str(b)
+            else:
+                for off, i in ((0, a), (3, b)):
+                    c, s_, e = cool.bins[i - (1 if False else 0)]
+                    row[off], row[off + 1], row[off + 2] = cool.names[c], str(s_ + (1 if ob else 0)), str(e)
+            for (name, k, _), v in zip(fields_spec, vals):
+                row[k] = str(v)
+            text.append(row)
+        args = [f"{n}={k + 1}" + (f":dtype={d}" if d else "") for n, k, d in fields_spec]
+        return {"kind": "load-fields", "ci": ci, "fmt": fmt, "one_based": ob, "duplex": False, "chunk": chunk, "text": text,
+                "fields": args, "symm": symm, "vnames": [n for n, _, _ in fields_spec]}
+
+    def random_recs(cool, symm, nvals, ob_coo, allow_dup_across=False):
+        n = len(cool.bins)
+        keys = set()
+        recs = []
+        for _ in range(rng.randint(1, 9)):
+            a, b = rng.randrange(n), rng.randrange(n)
+            k = (min(a, b), max(a, b)) if symm else (a, b)
+            if k in keys:
+                continue
+            keys.add(k)
+            d = 1 if ob_coo else 0
+            recs.append((a + d, b + d, [rng.randint(0, 30) for _ in range(nvals)]))
+        return recs
+
+    # regression corpus D8: load --field foo=5 --field count=3
+    ci0 = 0
+    recs = [(0, 0, [7, 70]), (3, 1, [2, 20]), (1, 2, [5, 50])]
+    jobs.append(handwritten(ci0, "coo", [("foo", 4, "int"), ("count", 2, None)], True, False, None, recs, 5, ["foo"]))
+    jobs.append(handwritten(ci0, "bg2", [("foo", 8, "int"), ("count", 7, None)], True, False, None, recs, 9, ["foo"]))
+    for _ in range(60 if thorough else 22):
+        ci = rng.randrange(len(cools))
+        cool = cools[ci]
+        fmt = rng.choice(["coo", "bg2"])
+        base = 2 if fmt == "coo" else 6
+        ncols = base + rng.randint(1, 4)
+        nf = rng.randint(1, min(2, ncols - base))
+        cols = rng.sample(range(base, ncols), nf)
+        names = ["count", "foo"][:nf]
+        if nf == 2 and rng.random() < 0.5:
+            names = names[::-1]
+        spec = [(nm, k, rng.choice([None, "int", "int64"]) if nm != "count" else rng.choice([None, "int32"])) for nm, k in zip(names, cols)]
+        if "count" not in names:
+            continue
+        symm = rng.random() < 0.6
+        ob = rng.random() < 0.4
+        recs = random_recs(cool, symm, nf, ob and fmt == "coo")
+        if fmt == "bg2":
+            recs = [(a, b, v) for a, b, v in recs]
+        chunk = rng.choice([None, 1, 2, 3])
+        jobs.append(handwritten(ci, fmt, spec, symm, ob, chunk, recs, ncols, [n for n in names if n != "count"]))
+    # malformed: the same pixel twice inside one chunk (refused), across chunks (summed)
+    jobs.append(handwritten(0, "coo", [("count", 2, None)], True, False, None, [(0, 1, [3]), (1, 0, [4])], 3, []))
+    jobs.append(handwritten(0, "coo", [("count", 2, None)], True, False, 1, [(0, 1, [3]), (1, 0, [4]), (0, 1, [5])], 3, []))
+
+    # ---- run: model
+    exprs, meta = [], []
+    for jb in jobs:
+        cool = cools[jb["ci"]]
+        if jb["text"] is None:
+            continue
+        tril = None
+        if jb["symm"]:
+            tril = "drop" if jb["duplex"] else "reflect"
+        chunk = jb["chunk"] if jb["chunk"] is not None else len(jb["text"]) + 1
+        sch = f"load_schema {C.b(jb['fmt'] == 'bg2')} {fp_list(jb['fields'], False)}"
+        vnames = jb.get("vnames") or ["count"]
+        jb["tril"], jb["chunk_eff"], jb["vn"] = tril, chunk, vnames
+        for vn in vnames:
+            if jb["fmt"] == "coo":
+                e = (f"match {sch} with Some s => load_coo s {C.s(vn)} {C.b(jb['one_based'])} {TRIL[tril]} {C.nat(chunk)} {coq_text(jb['text'])} | None => None end")
+            else:
+                e = (f"match {sch} with Some s => load_bg2 {coq_bins(cool)} {coq_names(cool)} s {C.s(vn)} {C.b(jb['one_based'])} {TRIL[tril]} {C.nat(chunk)} {coq_text(jb['text'])} | None => None end")
+            exprs.append(e)
+            meta.append((jb, vn))
+        if jb["kind"] == "load-dump":
+            # the dump text itself, as the model prints it
+            if jb["fmt"] == "coo" and not jb["duplex"]:
+                exprs.append(f"Some (coo_text {C.b(jb['one_based'])} {C.lst([C.tup(C.tup(C.z(a), C.z(b)), C.z(v)) for a, b, v in cool.px])})")
+                meta.append((jb, "__text"))
+            elif jb["fmt"] == "bg2" and not jb["duplex"]:
+                exprs.append(f"Some (bg2_text {coq_bins(cool)} {coq_names(cool)} {C.b(jb['one_based'])} {C.lst([C.tup(C.tup(C.z(a), C.z(b)), C.z(v)) for a, b, v in cool.px])})")
+                meta.append((jb, "__text"))
+    mvals = C.coq_eval(IMPORTS, exprs, tmpdir=ctx.tmp / "loadv", shard=60, jobs=4)
+    by_job = {}
+    for (jb, vn), mv in zip(meta, mvals):
+        by_job.setdefault(id(jb), {})[vn] = mv
+    # ---- run: implementation + oracle
+    for k, jb in enumerate(jobs):
+        cool = cools[jb["ci"]]
+        case = {"kind": jb["kind"], "cool": cool.spec(), "fmt": jb["fmt"], "one_based": jb["one_based"], "duplex": jb["duplex"],
+                "chunk": jb["chunk"], "fields": jb["fields"], "symm": jb["symm"], "text": jb["text"], "vn": jb.get("vn", ["count"]),
+                "bins": bins_kind(cool, rng),
+                "dump_opt": ({kk: (list(v) if isinstance(v, tuple) else v) for kk, v in jb["dump_opt"].items()} if "dump_opt" in jb else None)}
+        ctx.case(case, nontrivial=bool(jb["text"]) and (jb["one_based"] or jb["chunk"] is not None or bool(jb["fields"]) or jb["fmt"] == "bg2"),
+                 kind=jb["kind"] + ":" + jb["fmt"])
+        if jb["text"] is None:
+            ctx.fail(case, {"why": "the dump to be re-loaded failed"}, None)
+            continue
+        code, ires, storage = impl_load(runner, cli, cool, case, ldir, k)
+        # model
+        vn = jb["vn"]
+        mm = by_job[id(jb)]
+        mcols = [mpx(mm[v]) for v in vn]
+        if any(mc is None for mc in mcols):
+            mres = None
+        else:
+            mres = [tuple([a, b] + [mc[i][2] for mc in mcols]) for i, (a, b, _) in enumerate(mcols[0])]
+        ctx.compare("load pixel table", case, None if ires is None else [list(x) for x in ires], None if mres is None else [list(x) for x in mres])
+        if "__text" in mm:
+            ctx.compare("dump text == model coo_text/bg2_text", case, jb["text"], [list(r) for r in mm["__text"][1]])
+        bad = oracle_load(cool, case, code, ires, storage)
+        if bad:
+            ctx.fail(case, bad, None)
+    ctx.extra["load_cases"] = len(jobs)
+
+
+# ============================================================ C. cload pairs
+def py_bin_of(cool, cid, pos):
+    for i, (c, s_, e) in enumerate(cool.bins):
+        if c == cid and s_ <= pos < e:
+            return i
+    return None
+
+
+POS_NAMES = ["chrom1", "pos1", "chrom2", "pos2"]
+
+
+def impl_cload(runner, cli, cool, case, pdir, k):
+    lay = case["layout"]
+    inp = pdir / f"p{k}.pairs"
+    with open(inp, "w") as f:
+        if case["header"]:
+            f.write("## pairs format v1.0\n#columns: whatever\n")
+        f.write("".join("\t".join(rec) + "\n" for rec in case["text"]))
+    out = pdir / f"o{k}.cool"
+    args = ["cload", "pairs", "-c1", str(lay["chrom1"] + 1), "-p1", str(lay["pos1"] + 1), "-c2", str(lay["chrom2"] + 1), "-p2", str(lay["pos2"] + 1)]
+    if case["zero_based"]:
+        args.append("--zero-based")
+    if not case["symm"]:
+        args.append("--no-symmetric-upper")
+    if case["chunk"] is not None:
+        args += ["--chunksize", str(case["chunk"])]
+    for a in case["fields"]:
+        args += ["--field", a]
+    args += [bins_arg(cool, pdir, f"b{k}", case["bins"]), str(inp), str(out)]
+    code, _ = invoke(runner, cli, args, limit=30)
+    got = read_pixels(str(out), cols=tuple(["count"] + case["extras"])) if code == 0 else None
+    for pth in (inp, out):
+        if pth.exists():
+            pth.unlink()
+    return code, (None if got is None else got[1])
+
+
+def oracle_cload(cool, case, code, ires, pdir, k):
+    """independent count of the records as written (columns read by their declared numbers), then the library path"""
+    import cooler
+    from cooler.create import sanitize_records, aggregate_records
+    lay, extras = case["layout"], case["extras"]
+    recs = [{nm: (rec[kk] if nm.startswith("chrom") else int(rec[kk])) for nm, kk in lay.items()} for rec in case["text"]]
+    cnt = Counter()
+    sums = {e: Counter() for e in extras}
+    for r in recs:
+        if r["chrom1"] not in cool.names or r["chrom2"] not in cool.names:
+            continue
+        a1 = (cool.names.index(r["chrom1"]), r["pos1"] - (0 if case["zero_based"] else 1))
+        a2 = (cool.names.index(r["chrom2"]), r["pos2"] - (0 if case["zero_based"] else 1))
+        if case["symm"] and a2 < a1:
+            a1, a2 = a2, a1
+        key = (py_bin_of(cool, *a1), py_bin_of(cool, *a2))
+        cnt[key] += 1
+        for e in extras:
+            sums[e][key] += r[e]
+    exp = sorted(tuple([a, b, cnt[(a, b)]] + [sums[e][(a, b)] for e in extras]) for (a, b) in cnt)
+    if ires != exp:
+        return {"why": "cload pairs differs from the independent count of the records", "expected": exp[:15],
+                "got": None if ires is None else ires[:15], "exit": str(code)}
+    try:
+        df = pd.DataFrame({"chrom1": [r["chrom1"] for r in recs], "pos1": np.array([r["pos1"] for r in recs], dtype=np.int64),
+                           "chrom2": [r["chrom2"] for r in recs], "pos2": np.array([r["pos2"] for r in recs], dtype=np.int64)})
+        for e in extras:
+            df[e] = np.array([r[e] for r in recs], dtype=np.int64)
+        bdf = cool.bins_df()[["chrom", "start", "end"]]
+        san = sanitize_records(bdf, schema="pairs", decode_chroms=True, is_one_based=not case["zero_based"],
+                               tril_action="reflect" if case["symm"] else None, sort=True, validate=True)
+        agg = aggregate_records(agg={e: "sum" for e in extras}, count=True, sort=False)
+        lout = pdir / f"lib{k}.cool"
+        cooler.create_cooler(str(lout), bdf, [agg(san(df))], columns=extras + ["count"], ordered=False,
+                             symmetric_upper=case["symm"], boundscheck=False, triucheck=False, dupcheck=False, ensure_sorted=False)
+        lgot = read_pixels(str(lout), cols=tuple(["count"] + extras))
+        lres = None if lgot is None else lgot[1]
+        if lout.exists():
+            lout.unlink()
+    except Exception as e:
+        lres = "library-error:" + type(e).__name__
+    if lres != ires:
+        return {"why": "cload pairs differs from the library path (sanitize_records + aggregate_records + create_cooler)",
+                "library": lres if isinstance(lres, str) else (None if lres is None else lres[:15]), "got": None if ires is None else ires[:15]}
+    return None
+
+
+def run_cload(ctx, runner, cli, cools, thorough):
+    import cooler
+    from cooler.create import sanitize_records, aggregate_records
+    rng = ctx.rng
+    pdir = ctx.tmp / "pairs"
+    pdir.mkdir(exist_ok=True)
+    jobs = []
+
+    def make_job(ci, layout, ncols, nextra, zero_based, symm, chunk, header, dtype_decl, nrec=None):
+        """layout: dict name -> column number (0-based) for chrom1,pos1,chrom2,pos2,(score),(s2)"""
+        cool = cools[ci]
+        recs = []
+        for _ in range(nrec if nrec is not None else rng.randint(3, 14)):
+            r = {}
+            for side in "12":
+                c = rng.randrange(len(cool.blocks))
+                L = cool.blocks[c][-1][2]
+                p0 = rng.randrange(L)                        # zero-based position, < L (pos == L is finding D2 of C05)
+                r["chrom" + side] = cool.names[c] if rng.random() > 0.06 else "chrUn"
+                r["pos" + side] = p0 if zero_based else p0 + 1
+            for e in range(nextra):
+                r[["score", "s2"][e]] = rng.randint(0, 40)
+            recs.append(r)
+        text = []
+        for r in recs:
+            row = ["j%d" % rng.randint(0, 9) for _ in range(ncols)]
+            for nm, k in layout.items():
+                row[k] = str(r[nm])
+            text.append(row)
+        fields = []
+        for e in range(nextra):
+            nm = ["score", "s2"][e]
+            fields.append(f"{nm}={layout[nm] + 1}" + (":dtype=int" if dtype_decl else "") + (",agg=sum" if dtype_decl and rng.random() < 0.5 else ""))
+        if nextra == 2 and rng.random() < 0.5:
+            fields = fields[::-1]
+        return {"ci": ci, "layout": layout, "ncols": ncols, "zero_based": zero_based, "symm": symm, "chunk": chunk,
+                "header": header, "fields": fields, "text": text, "recs": recs, "extras": ["score", "s2"][:nextra]}
+
+    pos_names = POS_NAMES
+    # regression corpus D8: -c1 4 -p1 3 -c2 2 -p2 1
+    jobs.append(make_job(0, {"chrom1": 3, "pos1": 2, "chrom2": 1, "pos2": 0}, 4, 0, False, True, None, True, False))
+    perms = list(itertools.permutations(range(4)))
+    for pi, perm in enumerate(perms):
+        ci = pi % len(cools)
+        jobs.append(make_job(ci, dict(zip(pos_names, perm)), 4, 0, pi % 2 == 0, pi % 3 != 0, rng.choice([None, 2]), pi % 4 == 0, False))
+    for _ in range(90 if thorough else 30):
+        ci = rng.randrange(len(cools))
+        nextra = rng.choice([0, 1, 1, 2])
+        ncols = rng.randint(4 + nextra, 8)
+        cols = rng.sample(range(ncols), 4 + nextra)
+        layout = dict(zip(pos_names + ["score", "s2"][:nextra], cols))
+        jobs.append(make_job(ci, layout, ncols, nextra, rng.random() < 0.5, rng.random() < 0.6, rng.choice([None, 1, 3]),
+                             rng.random() < 0.3, rng.random() < 0.6))
+    # ---- model
+    exprs, meta = [], []
+    for jb in jobs:
+        cool = cools[jb["ci"]]
+        lay = jb["layout"]
+        sch = (f"cload_schema {C.z(lay['chrom1'] + 1)} {C.z(lay['pos1'] + 1)} {C.z(lay['chrom2'] + 1)} {C.z(lay['pos2'] + 1)} {fp_list(jb['fields'], True)}")
+        tril = "reflect" if jb["symm"] else None
+        for vn in [None] + jb["extras"]:
+            v = "None" if vn is None else f"(Some {C.s(vn)})"
+            exprs.append(f"match {sch} with Some s => cload_pairs {coq_bins(cool)} {coq_names(cool)} s {v} {C.b(not jb['zero_based'])} {TRIL[tril]} {coq_text(jb['text'])} | None => None end")
+            meta.append((jb, vn))
+    mvals = C.coq_eval(IMPORTS, exprs, tmpdir=ctx.tmp / "pairsv", shard=40, jobs=4)
+    by_job = {}
+    for (jb, vn), mv in zip(meta, mvals):
+        by_job.setdefault(id(jb), {})[vn] = mpx(mv)
+    # ---- implementation, library path, oracle
+    for k, jb in enumerate(jobs):
+        cool = cools[jb["ci"]]
+        lay = jb["layout"]
+        case = {"kind": "cload-pairs", "cool": cool.spec(), "layout": lay, "ncols": jb["ncols"], "zero_based": jb["zero_based"],
+                "symm": jb["symm"], "chunk": jb["chunk"], "header": jb["header"], "fields": jb["fields"], "text": jb["text"],
+                "extras": jb["extras"], "bins": bins_kind(cool, rng)}
+        identity = [lay[n] for n in POS_NAMES] == [0, 1, 2, 3]
+        ctx.case(case, nontrivial=not identity, kind="cload:" + ("ascending" if [lay[n] for n in POS_NAMES] == sorted(lay[n] for n in POS_NAMES) else "non-ascending"))
+        code, ires = impl_cload(runner, cli, cool, case, pdir, k)
+        mm = by_job[id(jb)]
+        mcols = [mm[None]] + [mm[e] for e in jb["extras"]]
+        mres = None if any(mc is None for mc in mcols) else [tuple([a, b] + [mc[i][2] for mc in mcols]) for i, (a, b, _) in enumerate(mcols[0])]
+        ctx.compare("cload pairs pixel table", case, None if ires is None else [list(x) for x in ires], None if mres is None else [list(x) for x in mres])
+        bad = oracle_cload(cool, case, code, ires, pdir, k)
+        if bad:
+            ctx.fail(case, bad, None)
+    ctx.extra["cload_cases"] = len(jobs)
+
+
+# ============================================================ D. parse_field_param
+FIELD_ARGS = ["count", "count=3", "foo=12", "foo=1", "foo=0", "foo=-1", "foo=abc", "foo=", "=3", "a=b=c", "foo=3:dtype=int", "foo=3:dtype=float64",
+              "foo=3:agg=sum", "foo=3:dtype=int32,agg=mean", "foo=3:agg=sum,dtype=uint16", "foo=3:bar=1", "foo=3:dtype", "foo=3:dtype=a=b", "foo=3:",
+              "foo:dtype=float", "count:dtype=float", "foo:agg=first", "x:y:z", "foo=3:dtype=int:agg=sum", "", ":", "foo=007", "foo=3:dtype=int,", "a.b-c=2"]
+
+
+def run_fieldparam(ctx):
+    import click
+    from cooler.cli._util import parse_field_param
+    cases, exprs = [], []
+    for arg in FIELD_ARGS:
+        for colnum, agg in ((True, True), (True, False), (False, True)):
+            cases.append((arg, colnum, agg))
+            exprs.append(f"parse_field_param {C.s(arg)} {C.b(colnum)} {C.b(agg)}")
+    mvals = C.coq_eval(IMPORTS, exprs, tmpdir=ctx.tmp / "fpv", shard=200, jobs=2)
+    for (arg, colnum, agg), mv in zip(cases, mvals):
+        case = {"kind": "parse_field_param", "arg": arg, "includes_colnum": colnum, "includes_agg": agg}
+        ctx.case(case, nontrivial=(":" in arg or "=" in arg), kind="field-param")
+        try:
+            name, k, dt, ag = parse_field_param(arg, includes_colnum=colnum, includes_agg=agg)
+            impl = ["FP", name, k, None if dt is None else str(np.dtype(dt)), ag]
+        except click.BadParameter:
+            impl = ["Bad"]
+        except Exception as e:
+            impl = ["raises:" + type(e).__name__]
+        if mv[1] == "FPBad":
+            model = ["Bad"]
+        else:
+            _, _, name, k, dt, ag = mv
+            model = ["FP", name, None if k is None else k[1], None if dt is None else str(np.dtype(dt[1])), None if ag is None else ag[1]]
+        ctx.compare("parse_field_param", case, impl, model)
+        # oracle: the documented form  name[=number][:dtype=..][,agg=..]
+        import re
+        m = re.fullmatch(r"([^:=]*)(?:=([0-9]+))?(?::(.*))?", arg)
+        if m and (m.group(2) is None or (colnum and int(m.group(2)) >= 1)) and impl[0] == "FP":
+            if impl[1] != m.group(1) or impl[2] != (None if m.group(2) is None else int(m.group(2)) - 1):
+                ctx.fail(case, {"why": "field name / number not as written", "got": impl}, None)
+
+
+# ============================================================ E. bins / chroms tables, zoomify -r spellings (oracle only)
+def run_light(ctx, runner, cli, cools, uris, thorough):
+    import cooler
+    rng = ctx.rng
+    for ci, cool in enumerate(cools[: (len(cools) if thorough else 5)]):
+        for header in (False, True):
+            for cols in (None, ["end", "chrom"]):
+                case = {"kind": "dump-bins", "cool": cool.spec(), "header": header, "columns": cols}
+                ctx.case(case, nontrivial=header or cols is not None, kind="dump:bins")
+                args = ["dump", "-t", "bins"] + (["-H"] if header else []) + (["-c", ",".join(cols)] if cols else []) + [uris[ci]]
+                code, text = invoke(runner, cli, args)
+                names = ["chrom", "start", "end"] + (["weight"] if cool.weights is not None else [])
+                rows = []
+                for i, (c, s_, e) in enumerate(cool.bins):
+                    d = {"chrom": cool.names[c], "start": str(s_), "end": str(e)}
+                    if cool.weights is not None:
+                        d["weight"] = fmt_float(cool.weights[i], default_opts())
+                    rows.append([d[n] for n in (cols or names)])
+                exp = ([cols or names] if header else []) + rows
+                if code != 0 or read_tsv(text) != exp:
+                    ctx.fail(case, {"why": "dump -t bins differs from the bin table", "expected": exp[:8], "got": read_tsv(text)[:8] if code == 0 else str(code)}, None)
+        case = {"kind": "dump-chroms", "cool": cool.spec()}
+        ctx.case(case, nontrivial=True, kind="dump:chroms")
+        code, text = invoke(runner, cli, ["dump", "-t", "chroms", "-H", uris[ci]])
+        exp = [["name", "length"]] + [[n, str(blk[-1][2])] for n, blk in zip(cool.names, cool.blocks)]
+        if code != 0 or read_tsv(text) != exp:
+            ctx.fail(case, {"why": "dump -t chroms differs from the chromosome table", "expected": exp, "got": read_tsv(text) if code == 0 else str(code)}, None)
+    # zoomify -r spellings (regression D4: "10b") — light, builder of C09 owns the ladder
+    zdir = ctx.tmp / "zoom"
+    zdir.mkdir(exist_ok=True)
+    sizes = [600, 424]
+    bins = pd.DataFrame({"chrom": ["a"] * 600 + ["b"] * 424, "start": list(range(600)) + list(range(424)),
+                         "end": list(range(1, 601)) + list(range(1, 425))})
+    a = sorted(rng.randrange(1024) for _ in range(150))
+    px = Counter()
+    for x in a:
+        y = rng.randrange(x, 1024)
+        px[(x, y)] += 1
+    keys = sorted(px)
+    base = str(zdir / "z.cool")
+    cooler.create_cooler(base, bins, pd.DataFrame({"bin1_id": [k[0] for k in keys], "bin2_id": [k[1] for k in keys], "count": [px[k] for k in keys]}))
+    maxres = -(-sum(sizes) // 256)
+
+    def seq(start, style):
+        out, x, k = [], start, 0
+        steps = [2, 2.5, 2] if style == "n" else [2, 2, 2]
+        while x <= maxres:
+            out.append(int(x))
+            x = x * steps[k % 3]
+            k += 1
+        return out
+
+    def expected(spec):
+        res = []
+        for tok in [t.strip().lower() for t in spec.split(",")]:
+            if tok in ("n", "b"):
+                res += seq(1, tok)
+            elif tok[-1] in "nb":
+                res += seq(int(tok[:-1]), tok[-1])
+            else:
+                res.append(int(tok))
+        return sorted(set(res) | {1})
+
+    for spec in ["2,4", "2b", "b", "n", "2n", "10b", "4", "3n", "B", " 2 , 4 ", "10n", "2B,3"]:
+        case = {"kind": "zoomify-spec", "spec": spec}
+        ctx.case(case, nontrivial=True, kind="zoomify -r")
+        out = str(zdir / "z.mcool")
+        code, _ = invoke(runner, cli, ["zoomify", "-r", spec, "-o", out, base], limit=60)
+        try:
+            lv = sorted(int(p.split("/")[-1]) for p in cooler.fileops.list_coolers(out))
+        except Exception as e:
+            lv = None
+        if code != 0 or lv != expected(spec):
+            ctx.fail(case, {"why": "zoomify -r spelling", "expected": expected(spec), "got": lv, "exit": str(code)}, "D4-regression" if spec == "10b" and code != 0 else None)
+        if os.path.exists(out):
+            os.remove(out)
+
+
 # ============================================================ run / replay
 def run(ctx):
     from click.testing import CliRunner
@@ -592,6 +1199,10 @@ def run(ctx):
     os.chdir(ctx.tmp)
     try:
         cools, uris = run_dump(ctx, runner, cli, thorough)
+        run_load(ctx, runner, cli, cools, uris, thorough)
+        run_cload(ctx, runner, cli, cools, thorough)
+        run_fieldparam(ctx)
+        run_light(ctx, runner, cli, cools, uris, thorough)
     finally:
         os.chdir(cwd)
         logging.disable(logging.NOTSET)
@@ -601,20 +1212,58 @@ def replay(ctx, case):
     from click.testing import CliRunner
     from cooler.cli import cli
     import logging
+    import shutil
     logging.disable(logging.INFO)
     runner = CliRunner()
-    if case["kind"] == "dump":
-        cool = Cool.from_spec(case["cool"])
-        opt = case["opt"]
-        for k in ("r", "r2"):
-            if opt[k] is not None:
-                opt[k] = (opt[k][0], tuple(opt[k][1]))
-        uri = str(ctx.tmp / "replay.cool")
-        cool.create(uri)
-        code, text = invoke(runner, cli, cli_args(opt, uri))
+    kind = case["kind"]
+    cwd = os.getcwd()
+    os.chdir(ctx.tmp)
+    try:
+        if kind == "dump":
+            cool = Cool.from_spec(case["cool"])
+            opt = case["opt"]
+            for k in ("r", "r2"):
+                if opt[k] is not None:
+                    opt[k] = (opt[k][0], tuple(opt[k][1]))
+            uri = str(ctx.tmp / "replay.cool")
+            cool.create(uri)
+            code, text = invoke(runner, cli, cli_args(opt, uri))
+            sub = type(ctx)(ctx.prop, ctx.tier, ctx.seed)
+            check_dump_case(sub, cool, opt, code, text, None)
+            shutil.rmtree(sub.tmp, ignore_errors=True)
+            return not sub.failures
+        if kind in ("load-dump", "load-fields"):
+            cool = Cool.from_spec(case["cool"])
+            if kind == "load-dump":
+                uri = str(ctx.tmp / "replay.cool")
+                cool.create(uri)
+                opt = case["dump_opt"]
+                code, text = invoke(runner, cli, cli_args(opt, uri))
+                if code != 0:
+                    return False
+                case = dict(case, text=read_tsv(text))
+            code, ires, storage = impl_load(runner, cli, cool, case, ctx.tmp, 0)
+            return oracle_load(cool, case, code, ires, storage) is None
+        if kind == "cload-pairs":
+            cool = Cool.from_spec(case["cool"])
+            code, ires = impl_cload(runner, cli, cool, case, ctx.tmp, 0)
+            return oracle_cload(cool, case, code, ires, ctx.tmp, 0) is None
+        # the light checks (bins/chroms tables, zoomify spellings, parse_field_param) re-run as a whole
         sub = type(ctx)(ctx.prop, ctx.tier, ctx.seed)
-        check_dump_case(sub, cool, opt, code, text, None)
-        import shutil
-        shutil.rmtree(sub.tmp, ignore_errors=True)
-        return not sub.failures
-    return True
+        try:
+            if kind == "parse_field_param":
+                run_fieldparam(sub)
+            else:
+                cools = make_coolers(sub.rng, False)[:5]
+                uris = []
+                for ci, cool in enumerate(cools):
+                    uris.append(str(ctx.tmp / f"r{ci}.cool"))
+                    cool.create(uris[-1])
+                sub.tmp = ctx.tmp
+                run_light(sub, runner, cli, cools, uris, False)
+        finally:
+            pass
+        return not [f for f in sub.failures if f[0].get("kind") == kind and all(f[0].get(k) == v for k, v in case.items() if k != "cool")]
+    finally:
+        os.chdir(cwd)
+        logging.disable(logging.NOTSET)
